@@ -219,6 +219,8 @@ pub fn c17_keys(known: &Known) -> SessionScenario {
         format!("$SYS/clients/{own}/#"),
         s("$SYS/clients/?"),
         s("$SYS/#"),
+        format!("$SYS/clients/{}/clientName", cid(0).simple()),
+        format!("$SYS/clients/{{{own}}}/graveGoods"),
         s(""),
         s("/"),
         s("a//"),
